@@ -45,6 +45,16 @@ def run(ctx, out):
                              ([], {(0, 12): "stall", (1, 4): "stall"}), ([], {(k, 5): "stall" for k in range(1, 70)} | {(0, 12): "stall"})):
             ops.append(G.op_line(cfg, calls, G.script_str(cfg, None, faults, conn)))
             meta.append((cfg, calls, "connect-stalls", max(1, len(conn), len(faults))))
+    # a terminal that keeps reporting a pending pre-authorisation (receipt 5 / 9999) and falls silent in every reversal exchange for it
+    # (after the acknowledgement, or after an intermediate status), while it answers handshakes and pending queries normally
+    P = G.Packets(spec)
+    for calls in (["new"], ["new", "configure"], ["new", "begin:61", "cancel:61"], ["new", "begin:61", "commit:61:100"], ["new", "readcard", "begin:61"]):
+        for receipt in (5, 9999):
+            for silent in ([], [P.intermediate()]):
+                cfg = G.default_cfg(timeout=15)
+                q = {"0623q": [[P.pr_abort(0xb8, receipt)]] * 100, "0625": [silent] * 1500}
+                ops.append(G.op_line(cfg, calls, G.script_str(cfg, q)))
+                meta.append((cfg, calls, "pending-never-reversed", 1500))
     impl, model = ctx.pair(ops)
     out.compare("client(stalls)", ops, impl, model)
     out.evaluations = len(ops)
@@ -69,6 +79,6 @@ def run(ctx, out):
         if kd.startswith("stall@") and "readcard" in calls and results[-1][1] == 0 and cfg["timeout"] >= 0:
             pass
     out.rule = ("a stall (terminal silent, connection open) at EVERY item of every exchange of 5 call histories (handshake included) x read_card_timeout in {0,1,15,253,254,255} (thorough: 0..255); the same with the terminal silent at that place of the retried exchange on all 1500 later connections (a client without a retry budget then needs more than the one-virtual-day watchdog) (the retry budget of each exchange must end the call); stalled connects, "
-                "stalls during registration on consecutive connections, a terminal that is mute for ever (70 connections). Oracle: every call returns (no hang under a one-virtual-day watchdog, no panic) within "
+                "stalls during registration on consecutive connections, a terminal that is mute for ever (70 connections); a terminal that reports a pending pre-authorisation at every query and never completes its reversal. Oracle: every call returns (no hang under a one-virtual-day watchdog, no panic) within "
                 "6 x 20 x (60 + 2 + 5 x max(60, timeout+2)) virtual seconds; implementation = model EXACTLY in results, traffic and virtual time stamps (so a time-out that overflowed or collapsed to 0 would show)")
     out.samples = [ops[7][:400], {"op": ops[-1][:300], "impl": impl[-1][:300]}]
